@@ -41,7 +41,7 @@ prop(
     engine="pure",
     level="exploration",
     level_text=("exhaustive over the project-type enumeration and the single-marker table, seeded exploration over marker "
-                "chains on a real filesystem; the oracle is an independent marker table applied to the same directories; start "
+                "chains on a real filesystem (with decoys: unrelated files and names that differ from a marker by letter case only); the oracle is an independent marker table applied to the same directories; start "
                 "paths are directories, files, or paths with 1-3 missing trailing components; a final phase puts markers into "
                 "the filesystem root itself (the last shard confines itself with chroot to a scratch tree, whose top then is /)"),
     level_note=("trusts the filesystem and the transcribed marker tables; the enumeration is complete by hook H4's exhaustive match; "
@@ -135,7 +135,7 @@ prop(
     level_text=("bounded-exhaustive control sequences (length <= 3 quick / 4 thorough over the public alphabet: the 14 Job methods plus the "
                 "directly sendable ContinueTryGracefulRestart control and a graceful restart with the forceful signal) x child "
                 "behaviour classes x send patterns (burst, gaps g/2, g, 2g+1) x every single injected spawn / kill / signal / wait "
-                "failure position, then seeded random sequences of length 5-16 (graceful controls with any signal); an online monitor inside the simulated-child layer "
+                "failure position (kill and signal failures as a generic error and as ESRCH), then seeded random sequences of length 5-16 (graceful controls with any signal); an online monitor inside the simulated-child layer "
                 "asserts at every spawn, under the same lock as the state it shadows, that no earlier child is spawned-and-unreaped "
                 "(a child dropped without being reaped counts); an offline recount over the event log cross-checks it"),
     level_note=_SIM_NOTE,
@@ -195,7 +195,9 @@ prop(
                 "spawn-failure positions, then random longer histories. " + _MODEL + ". Named clauses fall out of the model: start is a "
                 "no-op while running, stop while not; restart leaves a fresh process; try-restart never starts an idle job; to_wait "
                 "resolves at once when nothing runs; the spawn hook runs once before each spawn and its environment change is seen "
-                "by that spawn; run/run_async closures see (current, previous) state as documented"),
+                "by that spawn; run/run_async closures see (current, previous) state as documented; one random scenario in ten "
+                "starts with set_error_handler, unset_spawn_hook, set_spawn_hook and gets a spawn failure (unsetting the hook "
+                "touches nothing else; a process started after unset_spawn_hook without a new hook is checked in C18's engine)"),
     level_note=_SIM_NOTE,
     technique="online reference-model monitor (trace inclusion against an executable model of the documented API) in virtual time",
     rule=("evaluations = scenarios; non-trivial = trace with >=1 spawn and >=1 of {kill, signal, spawn failure}; distinct by abstract trace"),
@@ -245,7 +247,7 @@ prop(
     engine="pure",
     level="exploration",
     level_text=("seeded generation of real directory trees (depth <= 4, fan-out <= 4, prefix-related names) with .gitignore / .ignore / "
-                ".hgignore files (non-empty, empty, directories of that name) whose patterns ignore directories, files or nothing, "
+                ".hgignore files (non-empty, empty, directories of that name, one in eight a symbolic link to a regular file) whose patterns ignore directories, files or nothing, "
                 "with negations; VCS metadata directories with decoy ignore files at the origin and deeper; origin-level files "
                 "(.git/info/exclude, core.excludesFile, .bzrignore, _darcs/prefs/boring, .fossil-settings/ignore-glob); explicit "
                 "ignore files and explicit watch lists (directories of the tree and / or paths outside the origin: a prefix-named "
@@ -340,7 +342,7 @@ prop(
                 "later batch; replacement takes effect for the next error only; a filter error counts as raised only if the recording "
                 "filter was called on the event well before the quit; on settled histories one configuration change makes at most "
                 "one registration attempt per path (a failed registration is reported once, not once per duplicate attempt)"),
-    level_note=_RT_NOTE + "; watcher-callback faults (queue overflow) are covered at most once by construction of the oracle (at-most-once clause)",
+    level_note=_RT_NOTE + "; watcher-callback faults (queue overflow, unreadable events reported from the watcher's own thread and from inside watch() on the worker's task) are covered at most once by construction of the oracle (at-most-once clause); injected watch / unwatch failures come with and without the path in the notify error",
     technique="fault injection at the filterer / watcher interface with an exactly-once checker over the error-handler log",
     rule="evaluations = scenarios; non-trivial = history with >=2 batches or a batch of >=2 events (synthetic) or >=2 watcher calls, distinct by abstract history",
     tiers={"quick": {"shards": NC, "budget": 40, "min_evaluations": 300}, "thorough": {"shards": NC, "budget": 420}},
@@ -403,7 +405,7 @@ prop(
     needs_vchild=True,
     level="exploration",
     level_text=("the production binary (hooks off) in the four --on-busy-update modes and the -r / --signal shorthands, with and without "
-                "--postpone, --stop-signal, --stop-timeout {300, 500 ms}, --delay-run, debounce {20, 40 ms}, running a helper command "
+                "--postpone, --stop-signal, --stop-timeout {0, 300 ms, 500 ms, unit-less 1 = 1 s}, --delay-run, debounce {20, 40 ms}, running a helper command "
                 "that exits quickly, runs 1.3 s, ignores the stop signal, or exits 60 ms after it. Scenario templates place change "
                 "bursts while idle, deep inside a run, at the moment of exit, during the grace period, back to back, as a three-step "
                 "history (change in run N, change in the queued / restarted run N+1) and inside the --delay-run of a previous change. "
@@ -434,7 +436,7 @@ prop(
                 "{-c, /C, none}, command, extra args} — spawned through start_job plain / grouped / session; the helper dumps its "
                 "argv bytes, cwd, pgid, sid and environment (session spawns half of the time with `grouped` set as well). Oracle: argv byte for byte and in the documented order; grouped => "
                 "pgid == pid != ours; session => sid == pid; plain => our pgid and sid; env / cwd set by the spawn hook visible, and "
-                "absent when the hook did not set them. CLI part: `watchexec -1` with -n, --shell=none and --shell='<helper> opts' "
+                "absent when the hook did not set them (including a process started after unset_spawn_hook). CLI part: `watchexec -1` with -n, --shell=none and --shell='<helper> opts' "
                 "(the helper is the shell and must receive <opts> -c '<words joined by single spaces>') x --wrap-process"),
     level_note="the helper takes its own settings from the environment so that the entire argument vector is under test",
     technique="differential monitor at the process boundary: the child reports what it received, compared byte for byte with the configuration",
